@@ -26,6 +26,7 @@ type gateWriter struct {
 	parked chan struct{}
 	resume chan struct{}
 	owner  int64 // goroutine id of writer A: only its calls are counted/parked
+	nowait bool  // race mode: signal at the parkAt-th write of A but do not hold it
 }
 
 func (g *gateWriter) Write(p []byte) (int, error) {
@@ -36,7 +37,9 @@ func (g *gateWriter) Write(p []byte) (int, error) {
 		g.mu.Unlock()
 		if n == g.parkAt {
 			close(g.parked)
-			<-g.resume
+			if !g.nowait {
+				<-g.resume
+			}
 		}
 	}
 	g.mu.Lock()
@@ -56,6 +59,9 @@ func runCW(c caseIn) interface{} {
 	out := &caseOut{PropOK: true}
 	if len(c.Pkts) != 2 {
 		panic("cw needs two packets")
+	}
+	if c.Park < 0 {
+		return runCWRace(c)
 	}
 	gw := &gateWriter{parkAt: c.Park, parked: make(chan struct{}), resume: make(chan struct{})}
 	sp := stream.NewStreamProcessor(bytes.NewReader(nil), gw, context.Background())
@@ -138,5 +144,75 @@ func runCW(c caseIn) interface{} {
 			out.PropMsg = fmt.Sprintf("two concurrent writers (A parked before its transport write #%d): the wire does not decode to A's packet followed by B's packet (%d packets decoded, wire %s)", c.Park, len(pkts), hx(wire[:min(len(wire), 24)]))
 		}
 	}
+	return out
+}
+
+// runCWRace: no parking.  Writer A sends a large packet (compression may take milliseconds); the moment A's type byte reaches the
+// transport, writer B sends its packet.  Whatever A does between its transport writes (compress, pace), B's bytes must not land
+// inside A's packet: the wire decodes to the two packets, in either order.  Repeated a few times.
+func runCWRace(c caseIn) interface{} {
+	out := &caseOut{PropOK: true}
+	bodyA, bodyB := pktBody(c.Pkts[0]), pktBody(c.Pkts[1])
+	for rep := 0; rep < 4 && out.PropOK; rep++ {
+		gw := &gateWriter{parkAt: 1, nowait: true, parked: make(chan struct{}), resume: make(chan struct{})}
+		sp := stream.NewStreamProcessor(bytes.NewReader(nil), gw, context.Background())
+		aDone, bDone := make(chan error, 1), make(chan error, 1)
+		started := make(chan struct{})
+		go func() {
+			gw.owner = goidC01()
+			close(started)
+			_, err := sp.WritePacket(&packet.TransferPacket{PacketType: packet.Type(c.Pkts[0].Ty), Payload: bodyA}, c.Pkts[0].Compress, c.Pkts[0].Rate)
+			aDone <- err
+		}()
+		<-started
+		select {
+		case <-gw.parked:
+		case <-time.After(5 * time.Second):
+			out.PropOK, out.PropMsg = false, "writer A made no transport write"
+			return out
+		}
+		go func() {
+			_, err := sp.WritePacket(&packet.TransferPacket{PacketType: packet.Type(c.Pkts[1].Ty), Payload: bodyB}, c.Pkts[1].Compress, c.Pkts[1].Rate)
+			bDone <- err
+		}()
+		for i := 0; i < 2; i++ {
+			select {
+			case err := <-aDone:
+				if err != nil {
+					out.PropOK, out.PropMsg = false, "writer A failed: "+err.Error()
+				}
+			case err := <-bDone:
+				if err != nil {
+					out.PropOK, out.PropMsg = false, "writer B failed: "+err.Error()
+				}
+			case <-time.After(20 * time.Second):
+				out.PropOK, out.PropMsg = false, "a writer did not finish"
+				return out
+			}
+		}
+		gw.mu.Lock()
+		wire := append([]byte(nil), gw.buf.Bytes()...)
+		gw.mu.Unlock()
+		sp.Close()
+		obsv, pkts := readAll(wire, nil, true)
+		out.WireLen = len(wire)
+		match := func(p *packet.TransferPacket, in pktIn, body []byte) bool {
+			ty := byte(in.Ty)
+			if in.Compress {
+				ty |= 0x40
+			}
+			return byte(p.PacketType) == ty && (ty&0x3F == 3 || bytes.Equal(p.Payload, body))
+		}
+		ok := len(pkts) == 2 && ((match(pkts[0], c.Pkts[0], bodyA) && match(pkts[1], c.Pkts[1], bodyB)) || (match(pkts[0], c.Pkts[1], bodyB) && match(pkts[1], c.Pkts[0], bodyA)))
+		if !ok || obsv[len(obsv)-1].Ok || obsv[len(obsv)-1].N != 0 {
+			head := wire
+			if len(head) > 16 {
+				head = head[:16]
+			}
+			out.PropOK = false
+			out.PropMsg = fmt.Sprintf("two concurrent writers (B started when A's type byte reached the transport, A's body %d bytes, compress=%v): the wire does not decode to the two packets (%d packets read, wire starts % x, last %+v)", len(bodyA), c.Pkts[0].Compress, len(pkts), head, obsv[len(obsv)-1])
+		}
+	}
+	out.Obs = []obs{}
 	return out
 }
